@@ -346,7 +346,15 @@ def appended_in_loop(it, loop):
             if old is None or old is ob or ob.kind != 'list':
                 continue
             n = len(old.items)
-            res.setdefault(i, []).append(list(ob.items[n:]))
+            flat_ = []
+            for x in ob.items[n:]:
+                # `out += a + b` appends one concatenation: the same bytes
+                # as appending a and then b
+                if isinstance(x, Sym) and x.op == 'concat':
+                    flat_.extend(x.args)
+                else:
+                    flat_.append(x)
+            res.setdefault(i, []).append(flat_)
     return res
 
 
